@@ -266,9 +266,6 @@ delta_harness!(mb_delta_22_20, 6, 6, 2, 2);
 delta_harness!(mb_delta_22_21, 6, 6, 6, 2);
 delta_harness!(mb_delta_22_22, 6, 6, 6, 6);
 
-// native replay of Kani counterexamples (tools/replay.py writes the file)
-#[cfg(verif_replay)]
-include!("/verif/build/membership/replay_tests.rs");
 
 // native replay of Kani counterexamples (tools/replay.py writes the file)
 #[cfg(verif_replay)]
